@@ -630,6 +630,72 @@ fn oracle_soc_update(r: &Req, out: &str) -> Result<(), String> {
     Ok(())
 }
 
+/// `y_out = α·(W x) + β·y_in` (resp. `W⁻¹`), with `W x` evaluated densely from the stored
+/// `w`, `η` — independent of `mul_W` / `mul_Winv` and of their `(α, β)` handling.
+fn oracle_soc_mulw_general(r: &Req, out: &str, inverse: bool) -> Result<(), String> {
+    let o = Req::parse(&format!("x {}", out)).ok_or("unparsable")?;
+    if !o.has("y") {
+        return Err(format!("implementation returned {}", out));
+    }
+    let (ok, k) = soc_cone(r);
+    if !ok {
+        return Ok(());
+    }
+    let (x, yin, a, b) = (r.fs("x"), r.fs("y"), r.f("a"), r.f("b"));
+    let (w, eta) = (&k.w, k.η);
+    let n = x.len();
+    // W = η [w0, w1'; w1, I + w1 w1'/(1+w0)],  W⁻¹ = (1/η) [w0, −w1'; −w1, I + w1 w1'/(1+w0)]
+    let sg = if inverse { -1.0 } else { 1.0 };
+    let sc = if inverse { 1.0 / eta } else { eta };
+    let zeta = dot(&w[1..], &x[1..]);
+    let mut wx = vec![0.0; n];
+    wx[0] = sc * (w[0] * x[0] + sg * zeta);
+    for i in 1..n {
+        wx[i] = sc * (sg * w[i] * x[0] + x[i] + w[i] * zeta / (1.0 + w[0]));
+    }
+    let want: Vec<f64> = (0..n).map(|i| a * wx[i] + b * yin[i]).collect();
+    // rounding scale: |α|·‖W‖·‖x‖ + |β|·‖y‖ with ‖W‖ ≤ η(w0+‖w1‖)
+    let scale = a.abs() * sc * (w[0] + nrm(&w[1..])) * nrm(&x) + b.abs() * nrm(&yin);
+    let got = o.fs("y");
+    let d = rel(&got, &want, scale, 1e-13);
+    if !(d <= 1.0) {
+        return Err(format!(
+            "{} is not α·{}x + β·y (α={}, β={}): normalised defect {:.3e}, got {:?} expected {:?}",
+            if inverse { "mul_Winv" } else { "mul_W" }, if inverse { "W⁻¹" } else { "W" }, a, b, d, got, want
+        ));
+    }
+    Ok(())
+}
+fn oracle_soc_mul_w(r: &Req, out: &str) -> Result<(), String> {
+    oracle_soc_mulw_general(r, out, false)
+}
+fn oracle_soc_mul_winv(r: &Req, out: &str) -> Result<(), String> {
+    oracle_soc_mulw_general(r, out, true)
+}
+fn oracle_nn_mulw_general(r: &Req, out: &str, inverse: bool) -> Result<(), String> {
+    let (s, z, x, yin, a, b) = (r.fs("s"), r.fs("z"), r.fs("x"), r.fs("y"), r.f("a"), r.f("b"));
+    if yin.len() != x.len() || x.len() != s.len() {
+        return if out.starts_with("panic") { Ok(()) } else { Err("length mismatch must panic (assert_eq!)".into()) };
+    }
+    let o = Req::parse(&format!("x {}", out)).ok_or("unparsable")?;
+    let got = o.fs("y");
+    for i in 0..x.len() {
+        let w = (s[i] / z[i]).sqrt();
+        let wx = if inverse { x[i] / w } else { x[i] * w };
+        let want = a * wx + b * yin[i];
+        if !((got[i] - want).abs() <= 1e-14 * ((a * wx).abs() + (b * yin[i]).abs())) {
+            return Err(format!("entry {}: got {} expected α·Wx + β·y = {}", i, got[i], want));
+        }
+    }
+    Ok(())
+}
+fn oracle_nn_mul_w(r: &Req, out: &str) -> Result<(), String> {
+    oracle_nn_mulw_general(r, out, false)
+}
+fn oracle_nn_mul_winv(r: &Req, out: &str) -> Result<(), String> {
+    oracle_nn_mulw_general(r, out, true)
+}
+
 // ------------------------------------------------------------------ channel table
 
 macro_rules! ch {
@@ -644,8 +710,8 @@ fn channels() -> Vec<Channel> {
         ch!("nn.update_scaling", u, run_nn_update_scaling, Some(oracle_nn_update), true, "NonnegativeCone::update_scaling", "Nonneg.updateScaling / C13.nn_*"),
         ch!("nn.get_hs", u, run_nn_get_hs, None, true, "NonnegativeCone::get_Hs", "Nonneg.getHs / C13.nn_getHs_eq_mulHs"),
         ch!("nn.mul_hs", u, run_nn_mul_hs, None, true, "NonnegativeCone::mul_Hs", "Nonneg.mulHs"),
-        ch!("nn.mul_w", u, run_nn_mul_w, None, true, "NonnegativeCone::mul_W", "Nonneg.mulW"),
-        ch!("nn.mul_winv", u, run_nn_mul_winv, None, true, "NonnegativeCone::mul_Winv", "Nonneg.mulWinv"),
+        ch!("nn.mul_w", u, run_nn_mul_w, Some(oracle_nn_mul_w), true, "NonnegativeCone::mul_W", "Nonneg.mulW"),
+        ch!("nn.mul_winv", u, run_nn_mul_winv, Some(oracle_nn_mul_winv), true, "NonnegativeCone::mul_Winv", "Nonneg.mulWinv"),
         ch!("nn.circ_op", u, run_nn_circ_op, None, true, "nonnegativecone::_circ_op", "Nonneg.circOp"),
         ch!("nn.inv_circ_op", u, run_nn_inv_circ_op, None, true, "nonnegativecone::_inv_circ_op", "Nonneg.invCircOp"),
         ch!("nn.lam_inv_circ_op", u, run_nn_lam_inv_circ_op, None, true, "NonnegativeCone::λ_inv_circ_op", "Nonneg.lamInvCircOp"),
@@ -655,8 +721,8 @@ fn channels() -> Vec<Channel> {
         ch!("soc.update_scaling", u, run_soc_update_scaling, Some(oracle_soc_update), true, "SecondOrderCone::update_scaling", "Soc.updateScaling / C13.soc_*"),
         ch!("soc.get_hs", u, run_soc_get_hs, None, true, "SecondOrderCone::get_Hs", "Soc.getHs"),
         ch!("soc.mul_hs", u, run_soc_mul_hs, None, true, "SecondOrderCone::mul_Hs", "Soc.mulHs / C13.soc_mulHs_eq"),
-        ch!("soc.mul_w", u, run_soc_mul_w, None, true, "socone::_soc_mul_W_inner", "Soc.mulW"),
-        ch!("soc.mul_winv", u, run_soc_mul_winv, None, true, "socone::_soc_mul_Winv_inner", "Soc.mulWinv"),
+        ch!("soc.mul_w", u, run_soc_mul_w, Some(oracle_soc_mul_w), true, "socone::_soc_mul_W_inner", "Soc.mulW"),
+        ch!("soc.mul_winv", u, run_soc_mul_winv, Some(oracle_soc_mul_winv), true, "socone::_soc_mul_Winv_inner", "Soc.mulWinv"),
         ch!("soc.circ_op", u, run_soc_circ_op, None, true, "socone::_circ_op", "Soc.circOp"),
         ch!("soc.inv_circ_op", u, run_soc_inv_circ_op, None, true, "socone::_inv_circ_op", "Soc.invCircOp"),
         ch!("soc.lam_inv_circ_op", u, run_soc_lam_inv_circ_op, None, true, "SecondOrderCone::λ_inv_circ_op", "Soc.lamInvCircOp"),
@@ -703,7 +769,7 @@ fn deltas(rng: &mut Rng) -> f64 {
     *rng.choose(&[1e-8, 1e-6, 1e-4, 1e-2, 0.1, 0.5, 1.0, 3.0, 10.0])
 }
 fn mags(rng: &mut Rng) -> f64 {
-    if rng.bool(0.3) { 1.0 } else { 10f64.powf(rng.uniform(-6.0, 6.0)) }
+    if rng.bool(0.3) { 1.0 } else { 10f64.powf(rng.uniform(-12.0, 12.0)) }
 }
 fn anyvec(rng: &mut Rng, n: usize) -> Vec<f64> {
     let m = mags(rng);
@@ -713,14 +779,14 @@ fn anyvec(rng: &mut Rng, n: usize) -> Vec<f64> {
 fn gen_nn(s: &mut Session) {
     let n = if s.rng.bool(0.1) { s.rng.below(2) } else { 1 + s.rng.below(8) };
     let ms = mags(&mut s.rng);
-    let mz = mags(&mut s.rng);
+    let mz = if s.rng.bool(0.35) { ms } else { mags(&mut s.rng) };
     let sv: Vec<f64> = (0..n).map(|_| 10f64.powf(s.rng.uniform(-3.0, 3.0)) * ms).collect();
     let zv: Vec<f64> = (0..n).map(|_| 10f64.powf(s.rng.uniform(-3.0, 3.0)) * mz).collect();
     let x = anyvec(&mut s.rng, n);
     let y = anyvec(&mut s.rng, n);
     let dz = anyvec(&mut s.rng, n);
     let ds = anyvec(&mut s.rng, n);
-    let (a, b) = (*s.rng.choose(&[1.0, -1.0, 0.5, 2.0, 0.0]), *s.rng.choose(&[0.0, 1.0, -1.0, 0.25]));
+    let (a, b) = (*s.rng.choose(&[1.0, -1.0, 0.5, 2.0, 0.0, 0.3]), *s.rng.choose(&[0.0, 1.0, -1.0, 0.25, 1.0, -0.7]));
     let sm = 10f64.powf(s.rng.uniform(-8.0, 2.0));
     let t = s.rng.bool(0.5);
     let base = |c: &str| Line::new(c).fs("s", &sv).fs("z", &zv);
@@ -751,7 +817,8 @@ fn gen_nn(s: &mut Session) {
 fn gen_soc(s: &mut Session) {
     let n = 2 + s.rng.below(11); // 2..12, both sides of the sparse threshold (4)
     let (dsl, dzl) = (deltas(&mut s.rng), deltas(&mut s.rng));
-    let (ms, mz) = (mags(&mut s.rng), mags(&mut s.rng));
+    let ms = mags(&mut s.rng);
+    let mz = if s.rng.bool(0.35) { ms } else { mags(&mut s.rng) };
     let sv = soc_interior(&mut s.rng, n, dsl, ms);
     let mut zv = soc_interior(&mut s.rng, n, dzl, mz);
     if s.rng.bool(0.1) {
@@ -770,7 +837,7 @@ fn gen_soc(s: &mut Session) {
     let y = anyvec(&mut s.rng, n);
     let dz = anyvec(&mut s.rng, n);
     let ds = anyvec(&mut s.rng, n);
-    let (a, b) = (*s.rng.choose(&[1.0, -1.0, 0.5, 2.0, 0.0]), *s.rng.choose(&[0.0, 1.0, -1.0, 0.25]));
+    let (a, b) = (*s.rng.choose(&[1.0, -1.0, 0.5, 2.0, 0.0, 0.3]), *s.rng.choose(&[0.0, 1.0, -1.0, 0.25, 1.0, -0.7]));
     let sm = 10f64.powf(s.rng.uniform(-8.0, 2.0));
     let t = s.rng.bool(0.5);
     let (yd, ym) = (deltas(&mut s.rng).max(1e-4), mags(&mut s.rng));
